@@ -245,7 +245,7 @@ def audit(prop, thorough=False):
         n = t["name"]
         obligations += 1
         r = res.get(n)
-        if r is None or not r["stmt"] or "unknown" in r["stmt"].lower() and "error" in raw:
+        if r is None or not r["stmt"] or re.search(r"unknown (identifier|constant)|error:", r["stmt"], re.I):
             failed.append("theorem %s not found" % n)
             continue
         bad_ax = [a for a in r["axioms"] if a not in ALLOWED_AXIOMS]
